@@ -736,8 +736,12 @@ let suite_stage t v =
            st := M.settle md5_name M.sETTLE_FUEL (M.timers_fire (M.settle md5_name M.sETTLE_FUEL !st now)) now;
            check_snapshot k isn (model_snap !st)
        | `RS ->
+           (* the modification time of the oldest companion on the stage, as the implementation found it
+              (0: none): an input of the model, which keeps no file times *)
+           let oldest = nz t in
+           let oldest = if M.Z.eqb oldest M.Z0 then now else oldest in
            let isn = parse_snap t in
-           st := M.settle md5_name M.sETTLE_FUEL (M.restart md5_name (M.settle md5_name M.sETTLE_FUEL !st now) now) now;
+           st := M.settle md5_name M.sETTLE_FUEL (M.restart md5_name (M.settle md5_name M.sETTLE_FUEL !st now) now oldest) now;
            let msn = model_snap !st in
            (match !crash_image with
             | Some (ann, img) when not !after_recover ->
@@ -844,7 +848,10 @@ let suite_stage t v =
                 end
             | None -> ());
            if not (M.Z.eqb ia ma) then diff v ("received@" ^ ks);
-           (* C09: parts counted as received are on record or the file was delivered/held *)
+           (* C09: a part is counted as received only if it is on record (or its file is held / delivered as
+              that version): on the agreed pre-state the model's answer IS the length of the leading run of
+              such parts (C09_received_counts_recorded), so a larger answer claims a part nobody recorded *)
+           if int_of_z ia > int_of_z ma then oracle v "counted_part_not_on_record" false;
            st := st'
        | `SQ (n, off, h) ->
            let ia = ni t in
@@ -915,7 +922,7 @@ let suite_stage t v =
              | Some sn -> List.exists (fun (ln, _, lh, _) -> ln = ns && lh = hs) sn.slog | None -> false) in
            if not logged_already then Hashtbl.replace ann_prev (ns, hs) (string_of_name p.M.p_prev)
        | `ST | `TF | `RS | `CL | `VR ->
-           (match op with `CL -> cleaned_after_div := true | _ -> ());
+           (match op with `CL -> cleaned_after_div := true | `RS -> ignore (nz t) | _ -> ());
            let isn = parse_snap t in
            (* C04: never logged before the predecessor it was announced with (not judged once the cleaner has
               run after the divergence: it clears predecessors of cycles, and only the model knew which) *)
@@ -951,13 +958,14 @@ let suite_stage t v =
     end) ops;
   (* C06: end of the resumption after a crash *)
   (match !crash_image, !last_snap with
-   | Some (ann, img), Some fin when v.diffs = [] ->
+   | Some (ann, img), Some fin ->
        List.iter (fun (n, h, _, _, rn) ->
          let ns = string_of_name n and hs = string_of_name h in
          let tgt = if rn = [] then ns else string_of_name rn in
          let delivered = List.exists (fun (fn, _, m) -> fn = tgt && m = hs) fin.sfinals in
          let lck_in_image = M.ahas (if rn = [] then n else rn) img.M.flcks in
-         if not delivered then
+         (* (judged against the model's prediction: only while model and implementation agree) *)
+         if not delivered && v.diffs = [] then
            oracle v (if lck_in_image then "delivered_under_lock_name_after_crash" else "not_delivered_after_crash_and_resume")
              (not (List.exists (fun (fn, _, m) -> fn = tgt && m = hs) (model_snap !st).sfinals));
          let nrec = List.length (List.filter (fun (ln, _, lh, _) -> ln = ns && lh = hs) fin.slog) in
@@ -1103,12 +1111,15 @@ let suite_e2e t v =
            chain arrive, validate, and are HELD for a predecessor that will never be complete - in-order
            delivery, as designed. Exempt exactly that: every undelivered file is validated and held. *)
         let held = List.length (List.filter (fun n -> Filename.check_suffix n ".wait") (String.split_on_char ',' (f "staged_names"))) in
-        if profile = "vanish" && vanished && fi "eligible" - fi "delivered_ok" = held then ()
+        if profile = "vanish" && fi "eligible" - fi "delivered_ok" = held then ()
         else oracle v "not_delivered_within_bound" false
       end end
-    else if not finished then
-      (* everything delivered and released, but the graceful stop at the end never returns *)
-      oracle v "pipeline_never_drains_after_vanished_file" vanished
+    else if not finished then begin
+      (* everything delivered and released, but the graceful stop at the end never returns: after a file
+         vanished (C16-F1) or - profile mutate - was rewritten in flight (C03-F2: the tracker's entry of
+         the name is reset by parts of the two versions and never completes) *)
+      if profile = "mutate" then oracle v "not_confirmed_after_rewrite_in_flight" true
+      else oracle v "pipeline_never_drains_after_vanished_file" vanished end
     else if fi "staged_left" > 0 && profile <> "vanish" then oracle v "staging_area_not_empty_at_the_end" false
   end;
   if vanished then v.model_fails <- true;
@@ -1269,12 +1280,14 @@ let suite_http t v =
   let status = ni t in let outside = nb t in let changed = nb t in
   let foreign = if eol t then false else nb t in
   let disclosed = if eol t then false else nb t in
-  let sources = if srcsv = 0 then [] else if srcsv = 1 then [segz "good"; segz "oth/er"] else [segz "site.alpha"; segz "b1/c2"; segz "good"] in
+  let told_changed = if eol t then false else nb t in
+  let sources = if srcsv = 0 then [] else if srcsv = 1 then [segz "good"; segz "oth/er"] else if srcsv = 3 then [segz "final"; segz "good"] else [segz "site.alpha"; segz "b1/c2"; segz "good"] in
   let keys = if keysv = 0 then [] else [segz "k1"; segz "k2"] in
   let cs = source <> "" && String.for_all (fun c -> (c >= 'a' && c <= 'z') || (c >= '0' && c <= '9') || c = '.' || c = '-' || c = '/') source in
   let ssegs = List.map segz (split_on ['/'; '\\'] source) in
   let decision = int_of_z (M.handle_validate sources keys (segz source) (segz key) ssegs cs true) in
-  let static = (route = "sget" || route = "sdel") in
+  let static = (route = "sget" || route = "sdel" || route = "sgetn" || route = "sdeln") in
+  let no_serve_dir = (route = "sgetn" || route = "sdeln") in
   let refused = status >= 300 in
   (* ---- oracles ---- *)
   if outside then oracle v "touched_file_outside_configured_directories" false;
@@ -1282,6 +1295,10 @@ let suite_http t v =
   if disclosed then oracle v "disclosed_file_of_another_source" false;
   if status <> -1 then begin
     if refused && changed then oracle v "refused_request_had_effect" false;
+    (* the answers an authorised sender gets about its files (one failed, one held) are the same after
+       the request as before it: no request in the grammar names those files *)
+    if told_changed then oracle v (if refused then "refused_request_changed_what_authorised_sender_is_told"
+                                   else "request_changed_what_sender_is_told_about_other_files") false;
     if decision <> 0 && not refused then oracle v "unauthorised_request_processed" false
   end;
   (* ---- comparison with the model's decision ---- *)
@@ -1307,6 +1324,11 @@ let suite_http t v =
           (* repeated, leading and trailing slashes are normalised away by the server *)
           let segs = List.filter (fun s -> s <> "") (split_on ['/'] name) in
           let plain = List.for_all (fun s -> safe_seg s && s <> "." && s <> "..") segs in
+          if status >= 200 && status < 300 && no_serve_dir then begin
+            (* no serve directory configured: whatever was served lies outside the source's directories *)
+            oracle v "served_without_a_serve_directory" false;
+            diff v "static-served-unsafe-path"
+          end else
           if status >= 200 && status < 300 && not (plain && safe_seg source && (exists > 0 || segs = [])) then
             diff v "static-served-unsafe-path"
     end
@@ -1347,6 +1369,7 @@ let suite_scan t v =
   (* replay the history: world = name -> (size, mtime_rel_ms) *)
   let world = Hashtbl.create 16 in
   let disabled = ref false in
+  let clean_next = ref false in
   let cache = ref [] in
   let last = Hashtbl.create 16 in          (* oracle state: the version returned last, from the IMPLEMENTATION's outputs *)
   let iscans = ref iscans in
@@ -1368,6 +1391,8 @@ let suite_scan t v =
     | ["R"; n] -> Hashtbl.remove world (str_of_hex n)
     | ["L"; n; sz] -> Hashtbl.replace world (str_of_hex n) (int_of_string sz, -3600000)
     | ["D"; x] -> disabled := (x = "31")
+    | ["M"; _] -> ()     (* confirmation: nothing a scan depends on *)
+    | ["G"] -> clean_next := true
     | ["S"] ->
         incr k;
         let names = List.sort compare (Hashtbl.fold (fun n _ acc -> n :: acc) world []) in
@@ -1380,7 +1405,13 @@ let suite_scan t v =
           { M.df_name = name_z n; df_size = z_of_int sz; df_mtime = z_of_int mt;
             df_hidden = hid; df_skipped = skipped; df_ignored = ignored; df_included = included }) names in
         let cfg = { M.sc_disabled = !disabled; sc_hidden = hidden; sc_hasinc = hasinc; sc_minage = z_of_int minage } in
-        let (ret, c') = M.scan_once cfg (z_of_int 0) dfiles !cache in
+        (* the clean-up runs at the head of a scan once an interval has passed - never in a broker's first scan *)
+        let clean = !clean_next && !k > 1 in
+        clean_next := false;
+        (* a file created anew under a name the clean-up forgot may be sent again, same size and time or not *)
+        if clean then List.iter (fun n -> if not (Hashtbl.mem world n) then Hashtbl.remove last n)
+                        (Hashtbl.fold (fun n _ acc -> n :: acc) last []);
+        let (ret, c') = M.scan_once_c clean cfg (z_of_int 0) dfiles !cache in
         cache := c';
         let mret = List.sort compare (List.map (fun d ->
           (String.init (List.length d.M.df_name) (fun i -> Char.chr (int_of_z (List.nth d.M.df_name i))), int_of_z d.M.df_size, int_of_z d.M.df_mtime)) ret) in
@@ -1618,6 +1649,61 @@ let suite_race t v =
   v.nontrivial <- true
 
 (* ============================ suite G : which tag applies to a file (C19) ====== *)
+(* ---- suite RD : a delivered version retransmitted after a restart, through client, server, decoder,
+   stage and log, in several time zones (C05; implementation-only oracles) ---- *)
+let suite_redeliver t v =
+  let zone = ni t in let _tod = ni t in let _days = ni t in let variant = ni t in
+  expect t "=";
+  let first = ni t in let second = ni t in let nrec = ni t in let nfinal = ni t in let _staged = ni t in
+  if first <> 200 || nfinal <> 1 || nrec < 1 then oracle v "not_delivered_in_the_first_place" false;
+  if nrec > 1 then oracle v "delivered_version_logged_again_after_restart" false;
+  if variant = 0 && second <> 1 then oracle v "delivered_version_not_recognised_after_restart" false;
+  if variant = 1 && second <> 200 then diff v "retransmission-status";
+  v.cls <- "D";
+  v.nontrivial <- zone <> 0
+
+(* ---- suite FI : finish(): one poll answer, the cache entry and the source file (C02) ---- *)
+let suite_finish t v =
+  let code = ni t in let ci = ni t in let pi = ni t in
+  let was_done = nb t in let del = nb t in let disk = ni t in
+  expect t "=";
+  let d = nb t in let ex = nb t in let rt = nb t in
+  let h i = if i = 0 then [] else [z_of_int (96 + i)] in
+  let o = M.finish_step (z_of_int code) (h ci) (h pi) was_done del (z_of_int disk) in
+  let m_exists = disk <> 2 && not o.M.fo_removed in
+  if o.M.fo_done <> d then diff v "finish-done";
+  if m_exists <> ex then diff v "finish-removed";
+  if o.M.fo_retry <> rt then diff v "finish-retry";
+  let positive = (code = 2 || code = 3) in
+  let same_version = (pi = 0 || ci = pi) in
+  if d && not was_done && not (positive && same_version) then oracle v "entry_confirmed_by_answer_about_another_version" false;
+  if disk <> 2 && not ex && not (positive && same_version && del && disk = 0) then
+    oracle v "source_removed_without_confirmation_of_that_version" false;
+  v.cls <- "D";
+  v.nontrivial <- positive && ci <> pi
+
+(* ---- suite GI : chunk size per source and tag after inheritance (C19) ---- *)
+let suite_inherit t v =
+  let ns = ni t in
+  let srcs = times ns (fun () ->
+    let bin = nz t in let nt = ni t in
+    let tags = if nt < 0 then None else Some (times nt (fun () -> nz t)) in
+    { M.cs_bin = bin; cs_tags = tags }) in
+  expect t "=";
+  let rows = times ns (fun () -> let n = ni t in times n (fun () -> ni t)) in
+  let big = 64 lsl 20 in
+  let mrows = List.map (fun r -> List.map (fun c -> min big (int_of_z c)) r) (M.chunk_table srcs) in
+  if mrows <> rows then diff v "queue-chunk-size";
+  (* a source that gives a bin-size chunks a tag with a chunk-size written for a tag, or with its own bin-size *)
+  let written = List.concat (List.map (fun s -> match s.M.cs_tags with Some l -> List.map int_of_z l | None -> []) srcs) in
+  List.iteri (fun i row ->
+    let bin = int_of_z (List.nth srcs i).M.cs_bin in
+    if bin <> 0 then
+      List.iter (fun x -> if x <> min big bin && not (x <> 0 && List.mem x written) then
+                   oracle v "chunked_with_another_sources_bin_size" false) row) rows;
+  v.cls <- "D";
+  v.nontrivial <- List.exists (fun s -> s.M.cs_tags = None) srcs
+
 let suite_tags t v =
   let nt = ni t in
   let haspat = Array.of_list (times nt (fun () -> nb t)) in
@@ -1809,6 +1895,9 @@ let run_line line =
       | "W" -> suite_wire t v
       | "SR" -> suite_race t v
       | "G" -> suite_tags t v
+      | "GI" -> suite_inherit t v
+      | "FI" -> suite_finish t v
+      | "RD" -> suite_redeliver t v
       | "P" -> suite_prune t v
       | "CA" -> suite_cache t v
       | "TK" -> suite_track t v
